@@ -28,6 +28,7 @@ LEVEL_NOTE = 'Trusted: pyarrow.parquet.read_table as independent reader; Python 
 TECHNIQUE = 'bounded-exhaustive configuration grid exploration of the real parquet writer/reader against an independent reader'
 
 SCHEMA = pa.schema([('i', pa.int64()), ('s', pa.string()), ('f', pa.float64())])
+WIDE = {n: pa.schema([('c%d' % j, pa.int64()) for j in range(n)]) for n in (5, 6, 7, 8)}
 NESTED = pa.schema([('i', pa.int64()), ('p', pa.struct([('x', pa.int32()), ('y', pa.string())])), ('l', pa.list_(pa.int64()))])
 
 
@@ -37,10 +38,11 @@ def rows_of(n, nested=False):
     rows = []
     for k in range(n):
         s_val = None if k % 5 == 4 else 's%d' % (k % 7)
+        i_val = k - 2 if k < 4 else k + (2 ** 61 - 1) * (k % 3 == 0)      # -2, -1, 0, 1 and values with colliding hashes
         if k % 2:        # dict key order differs from the schema's column order
-            rows.append({'f': k / 2, 's': s_val, 'i': k})
+            rows.append({'f': (k - 2) / 2, 's': s_val, 'i': i_val})
         else:
-            rows.append({'i': k, 's': s_val, 'f': k / 2})
+            rows.append({'i': i_val, 's': s_val, 'f': float(k - 2)})
     return rows
 
 
@@ -84,6 +86,8 @@ def cases(unit):
         for n, b in ((0, 3), (7, 3), (9, 3), (10, 20)):
             yield {'fam': 'codec', 'codec': unit['codec'], 'rows': n, 'batch': b}
     else:
+        for ncols, n in ((5, 1638), (6, 1365), (7, 1170), (8, 1024), (5, 3276)):
+            yield {'fam': 'variants', 'rows': n, 'batch': 4096, 'row_group_size': None, 'nested': False, 'fileobj': False, 'wide': ncols}
         for n, b in ((600, 300), (601, 300), (257, 257)):
             yield {'fam': 'variants', 'rows': n, 'batch': b, 'row_group_size': None, 'nested': False, 'fileobj': False}
         for n, b in ((0, 2), (5, 2), (6, 2), (6, 3), (7, 10)):
@@ -116,6 +120,9 @@ def run_case(case, acc):
     nested = case.get('nested', False)
     schema = NESTED if nested else SCHEMA
     rows = rows_of(n, nested)
+    if case.get('wide'):
+        schema = WIDE[case['wide']]
+        rows = [{'c%d' % j: k * 10 + j for j in range(case['wide'])} for k in range(n)]
     codec = case.get('codec', 'snappy')
     out = []
     d = tempfile.mkdtemp(prefix='c20-')
@@ -144,7 +151,7 @@ def run_case(case, acc):
         if k:
             out.append(viol(case['fam'], 'file-content-' + k, dict(cfg, rows_in_file=len(ref), first_rows=ref[:6])))
         else:
-            for lb in ((1, 2, 7, 1024) if case['fam'] in ('grid',) else (2, 1024)):
+            for lb in ((1, 2, 7, 1024) if case['fam'] in ('grid',) else ((2, 1024) if not case.get('wide') else (n, 4096, 1024))):
                 r = RawSink()
                 if case.get('fileobj'):
                     with open(path, 'rb') as f:
